@@ -86,6 +86,26 @@ fn rfc8285_one_byte(data: &[u8], id: u8) -> Option<Vec<u8>> {
     None
 }
 
+/// two-byte-header (0x1000) element scan written from RFC 8285 §4.3
+fn rfc8285_two_byte(data: &[u8], id: u8) -> Option<Vec<u8>> {
+    let mut i = 0;
+    while i < data.len() {
+        if data[i] == 0 { i += 1; continue; }
+        if i + 1 >= data.len() { return None; }
+        let (eid, len) = (data[i], data[i + 1] as usize);
+        if i + 2 + len > data.len() { return None; }
+        if eid == id { return Some(data[i + 2..i + 2 + len].to_vec()); }
+        i += 2 + len;
+    }
+    None
+}
+fn ext_value(ext: &Option<(u16, Vec<u8>)>, id: u8) -> Option<String> {
+    if id == 0 { return None; }
+    let (p, d) = ext.as_ref()?;
+    let raw = match *p { 0xBEDE => rfc8285_one_byte(d, id), 0x1000 => rfc8285_two_byte(d, id), _ => None };
+    raw.and_then(|b| String::from_utf8(b).ok())
+}
+
 pub struct DOut { pub lines: Vec<String>, pub fails: Vec<(String, String)>, pub delivered: u32, pub routed_by_ext: u32 }
 
 /// Execute a demux case on a real transport.
@@ -108,6 +128,8 @@ pub async fn dexec(ops: &[DOp]) -> DOut {
     let mut rid_owner: BTreeMap<String, usize> = BTreeMap::new();
     let (mut rid_ext, mut mid_ext) = (0u8, 0u8);
     let mut cleared_since: [bool; NL] = [true; NL];
+    let mut pts_of: [Vec<u8>; NL] = Default::default();             // payload types a listener registered
+    let mut prov_of: [bool; NL] = [false; NL];
     let mut seq = 0u16;
     for (i, op) in ops.iter().enumerate() {
         let mut res = "-".to_string();
@@ -115,15 +137,16 @@ pub async fn dexec(ops: &[DOp]) -> DOut {
             DOp::Ssrc(s, l) => { tr.register_listener_sync(*s, txs[*l].clone()); registered[*l] = true; cleared_since[*l] = false; }
             DOp::Rid(r, l) => { tr.register_rid_listener(r.clone(), txs[*l].clone()); registered[*l] = true; cleared_since[*l] = false; rid_owner.insert(r.clone(), *l); }
             DOp::Mid(m, l) => { tr.register_mid_listener(m.clone(), txs[*l].clone()); registered[*l] = true; cleared_since[*l] = false; section[*l] = Some(m.clone()); mid_owner.insert(m.clone(), *l); }
-            DOp::Pts(p, l) => { tr.register_payload_list_listener(p.clone(), txs[*l].clone()); registered[*l] = true; cleared_since[*l] = false; }
-            DOp::Pt(p, l) => { tr.register_pt_listener(*p, txs[*l].clone()); registered[*l] = true; cleared_since[*l] = false; }
-            DOp::Prov(l) => { tr.register_provisional_listener(txs[*l].clone()); registered[*l] = true; cleared_since[*l] = false; }
+            DOp::Pts(p, l) => { tr.register_payload_list_listener(p.clone(), txs[*l].clone()); registered[*l] = true; cleared_since[*l] = false; pts_of[*l] = p.clone(); }
+            DOp::Pt(p, l) => { tr.register_pt_listener(*p, txs[*l].clone()); registered[*l] = true; cleared_since[*l] = false; pts_of[*l].push(*p); }
+            DOp::Prov(l) => { tr.register_provisional_listener(txs[*l].clone()); registered[*l] = true; cleared_since[*l] = false; prov_of[*l] = true; }
             DOp::Close(l) => { rxs[*l] = None; }
             DOp::RidExt(x) => { tr.set_rid_extension_id(if *x == 0 { None } else { Some(*x) }); rid_ext = *x; }
             DOp::MidExt(x) => { tr.set_sdes_mid_extension_id(if *x == 0 { None } else { Some(*x) }); mid_ext = *x; }
-            DOp::Clear => { res = format!("n{}", tr.clear_listeners()); cleared_since = [true; NL]; rid_owner.clear(); mid_owner.clear(); section = Default::default(); }
+            DOp::Clear => { res = format!("n{}", tr.clear_listeners()); cleared_since = [true; NL]; rid_owner.clear(); mid_owner.clear(); section = Default::default(); pts_of = Default::default(); prov_of = [false; NL]; }
             DOp::Pkt { ssrc, pt, ext } => {
                 seq = seq.wrapping_add(1);
+                let pre = tr.verif_registry_snapshot(&txs);
                 let mut h = RtpHeader::new(*pt, seq, 160 * seq as u32, *ssrc);
                 if let Some((p, d)) = ext { h.extension = Some(RtpHeaderExtension::new(*p, d.clone())); }
                 let bytes = RtpPacket::new(h, vec![i as u8, 0xab]).marshal().unwrap();
@@ -133,9 +156,27 @@ pub async fn dexec(ops: &[DOp]) -> DOut {
                 res = match got.len() { 0 => "0".into(), 1 => format!("d{}", got[0].0), n => format!("multi{n}") };
                 // ---- property oracle (written from the property text and RFC 8843/8285, not from the code)
                 if got.len() > 1 { fails.push(("demux:delivered-to-more-than-one".into(), format!("step {i}: {:?}", got.iter().map(|g| g.0).collect::<Vec<_>>()))); }
-                let mid_val = ext.as_ref().filter(|(p, _)| *p == 0xBEDE && mid_ext != 0).and_then(|(_, d)| rfc8285_one_byte(d, mid_ext)).and_then(|b| String::from_utf8(b).ok());
-                let rid_val = ext.as_ref().filter(|(p, _)| *p == 0xBEDE && rid_ext != 0).and_then(|(_, d)| rfc8285_one_byte(d, rid_ext)).and_then(|b| String::from_utf8(b).ok());
+                let mid_val = ext_value(ext, mid_ext);
+                let rid_val = ext_value(ext, rid_ext);
+                let live_mid_owner = mid_val.as_ref().and_then(|m| mid_owner.get(m).copied()).filter(|o| rxs[*o].is_some());
+                let rid_named = rid_val.as_ref().and_then(|r| rid_owner.get(r).copied());
+                // SSRC bindings learnt from this packet: only its own SSRC, only to its receiver, and only when the
+                // packet was routed by RID, MID or a payload type the receiver registered (never the provisional fallback)
+                let post = tr.verif_registry_snapshot(&txs);
+                for (s, l) in post.by_ssrc.iter().filter(|e| !pre.by_ssrc.contains(e)) {
+                    let routed = *l < NL && (rid_named == Some(*l) || live_mid_owner == Some(*l) || pts_of[*l].contains(pt));
+                    if *s != *ssrc || got.len() != 1 || got[0].0 != *l { fails.push(("bind:ssrc-bound-to-other-than-receiver".into(), format!("step {i}: {s}->{l}"))); }
+                    else if !routed { fails.push(("bind:ssrc-learnt-from-unrouted-packet".into(), format!("step {i}: {s}->{l} learnt from a packet routed by SSRC/provisional fallback"))); }
+                }
                 for (l, p) in &got {
+                    // "else by an unambiguous payload type": two open listeners registered this payload type, the SSRC is
+                    // unknown and no extension names the receiver → only the single provisional listener may get it
+                    let by_ext = rid_named == Some(*l) || live_mid_owner == Some(*l);
+                    let known_ssrc = pre.by_ssrc.iter().any(|e| e.0 == *ssrc);
+                    let claimants = (0..NL).filter(|o| rxs[*o].is_some() && pts_of[*o].contains(pt)).count();
+                    if !by_ext && !known_ssrc && claimants >= 2 && !prov_of[*l] {
+                        fails.push(("demux:ambiguous-payload-type-delivered".into(), format!("step {i}: pt {pt} registered by {claimants} open listeners, handed to {l}")));
+                    }
                     delivered += 1;
                     if p.header.ssrc != *ssrc || p.header.payload_type != *pt { fails.push(("demux:delivered-packet-altered".into(), format!("step {i}"))); }
                     if !registered[*l] { fails.push(("demux:delivered-to-unregistered-listener".into(), format!("step {i}: listener {l} never registered"))); }
